@@ -134,7 +134,7 @@ def canon_event(e):
             e["timestamp"], e["applicationName"], tuple(sorted(prev)))
 
 
-def run_case(tset, custom, async_flag):
+def run_case(tset, custom, async_flag, ug=False):
     from tel2puml.otel_to_pv.otel_to_pv import otel_to_pv
     from tel2puml.otel_to_pv.config import IngestDataConfig
     import tel2puml.events  # noqa: F401
@@ -148,11 +148,11 @@ def run_case(tset, custom, async_flag):
         mapp = os.path.join(root, "map.yaml") if custom else None
         rc1 = call(dict(command="otel2puml", output_file_directory=o1,
                         config_file=cfgp, ingest_data=True,
-                        find_unique_graphs=False, debug=False,
+                        find_unique_graphs=ug, debug=False,
                         input_puml_models=[], output_puml_models=False))
         a2 = dict(command="otel2pv", output_file_directory=o2,
                   config_file=cfgp, ingest_data=True,
-                  find_unique_graphs=False, save_events=True, debug=False)
+                  find_unique_graphs=ug, save_events=True, debug=False)
         if mapp:
             a2["mapping_config_file"] = mapp
         rc2 = call(a2)
@@ -173,7 +173,8 @@ def run_case(tset, custom, async_flag):
         impl_otel.reset_metadata()
         stream = {}
         for name, jobs in otel_to_pv(IngestDataConfig(**cfg),
-                                     ingest_data=True):
+                                     ingest_data=True,
+                                     find_unique_graphs=ug):
             stream[name] = sorted(sorted(canon_event(e) for e in job)
                                   for job in jobs)
         saved = {}
@@ -242,6 +243,15 @@ def handle(task):
                 for p in problems:
                     out.append({"tset": tset, "custom": custom, "async": af,
                                 "problem": p})
+        if sum(len(v) for v in tset.values()) >= 2:
+            # both routes with --unique-graphs
+            n += 1
+            problems, info = run_case(tset, False, False, ug=True)
+            for k in ("identical_text", "workflows"):
+                agg[k] += info[k]
+            for p in problems:
+                out.append({"tset": tset, "custom": False, "async": False,
+                            "ug": True, "problem": p})
     return {"n": n, "bad": out, "agg": agg}
 
 
@@ -268,11 +278,11 @@ def collect(tier, tasks, results, ctx):
         for b in r["bad"]:
             viol.append({
                 "key": input_key(["C14", b["tset"], b["custom"], b["async"],
-                                  b["problem"][0]]),
+                                  b["problem"][0], bool(b.get("ug"))]),
                 "what": f"traces={b['tset']} custom_mapping={b['custom']} "
                         f"async={b['async']}: {str(b['problem'])[:300]}",
                 "input": {"tset": b["tset"], "custom": b["custom"],
-                          "async": b["async"]},
+                          "async": b["async"], "ug": bool(b.get("ug"))},
                 "observed": b["problem"]})
     he = None
     if not agg.get("workflows"):
@@ -304,5 +314,6 @@ def collect(tier, tasks, results, ctx):
 
 def replay(rec, ctx):
     i = rec["input"]
-    problems, _ = run_case(i["tset"], i["custom"], i["async"])
+    problems, _ = run_case(i["tset"], i["custom"], i["async"],
+                           ug=i.get("ug", False))
     return bool(problems), repr([p[:2] for p in problems])[:300]
